@@ -317,6 +317,14 @@ def pathJoin (a b : PV) : PV :=
   | str x, str y => str (x ++ "/" ++ y)
   | _, _ => err "TypeError"
 
+/-- `s + "literal"` on strings -/
+def strCat (a b : PV) : PV :=
+  match a, b with
+  | err e, _ => err e
+  | _, err e => err e
+  | str x, str y => str (x ++ y)
+  | _, _ => err "TypeError"
+
 /-- `list(x)` of a list of ints -/
 def toList : PV → PV
   | arr _ xs => arr .big xs
